@@ -316,7 +316,7 @@ func (b *Builder) invoke(fn reflect.Value, name string, c *Call) []reflect.Value
 			}
 			args = append(args, reflect.ValueOf(m))
 		case pt.Kind() == reflect.Interface: // Lit(v interface{})
-			if c.Val == nil {
+			if c.Val == nil || c.Val.Go() == nil {
 				args = append(args, reflect.Zero(pt))
 			} else {
 				args = append(args, reflect.ValueOf(c.Val.Go()))
